@@ -40,4 +40,34 @@ PROPS = {
     },
 }
 
+PROPS["C03"] = {
+    "title": "Rolling update respects maxUnavailable",
+    "level": "exploration",
+    "level_text": "Generated node/pod layouts (every per-node situation the property names, incl. migration pods), maxUnavailable and maxPodSchedulerFailure as int or percent, one real ExtendedDaemonSetReplicaSet Reconcile per layout executed on several forks of the store to sample Go map iteration orders; the deletions actually issued are judged by an independent budget oracle (U from the state read, at most max(0, maxUnavailable-U_eff) available pods, unavailable first, never more than maxUnavailable). The same monitor runs after every sync of generated rollout histories.",
+    "level_note": "Map orders are sampled (6 forks quick, 24 thorough), not enumerated; a terminating pod that is still Ready is counted as available (most lenient reading), so only over-deletion under every reading is flagged.",
+    "technique": "property-based testing (rapid): generated layouts + reference budget model, map-order sampling by store forks, stateful histories with a per-sync invariant",
+    "quick": {"jobs": [rapid_job("budget", "^TestC03Budget$", 1500, shards=2)]},
+    "thorough": {"jobs": [rapid_job("budget", "^TestC03Budget$", 6000, shards=16, timeout="40m")]},
+}
+
+PROPS["C05"] = {
+    "title": "A new version becomes active only when the promotion rule allows it",
+    "level": "exploration",
+    "level_text": "The promotion lattice of the property (strategy x age-vs-duration incl. the boundary instants x noRestartsDuration x last restart x pause source x unpaused x canary-valid x failed x presence of the recorded active set; 10368 points) is enumerated completely through the real ExtendedDaemonSet Reconcile on a store prepared by the real reconciler, on the virtual clock; each switch of status.activeReplicaSet is judged by a reference rule (three-valued at the boundary instants). The same rule is checked after every EDS reconcile of generated histories.",
+    "level_note": "Exhaustive only for the finite lattice named here (exhaustive_subspaces in the evidence); durations other than the sampled ones and interleavings are covered by sampling in the history tests.",
+    "technique": "exhaustive enumeration of a finite input lattice + property-based sampling (rapid) against a reference promotion rule; stateful histories with a per-reconcile invariant",
+    "quick": {"jobs": [rapid_job("lattice-sample", "^TestC05Lattice$", 1500), rapid_job("lattice-all", "^TestC05Exhaustive$", 1, shards=4)]},
+    "thorough": {"jobs": [rapid_job("lattice-sample", "^TestC05Lattice$", 10000, shards=4), rapid_job("lattice-all", "^TestC05Exhaustive$", 1, shards=8)]},
+}
+
+PROPS["C15"] = {
+    "title": "Canary nodes are valid, distinct, stable and as many as requested",
+    "level": "exploration",
+    "level_text": "Generated node populations (selector label, one or two anti-affinity labels, taints, restart history of the active pods), replicas as number or percent, canary nodeSelector, anti-affinity keys, eligibility-changing new templates and previously selected lists (valid, stale, nonexistent) are fed to one real ExtendedDaemonSet Reconcile; the resulting status.canary.nodes is judged by an independent oracle: distinct, valid, previous valid entries kept, count = replicas resolved against the targeted nodes (rounded up) or an error, error only when no selection exists within the per-value quota, spread over anti-affinity values, least-restarts preference. The validity monitor also runs in generated histories with node deletion/relabel/taint during a canary.",
+    "level_note": "The per-value quota ceil(replicas/#values) is taken from the code's own documentation of the spreading rule; the statement only says 'spreading'.",
+    "technique": "property-based testing (rapid) of the selection against a validity/preference oracle; stateful histories with a per-reconcile invariant",
+    "quick": {"jobs": [rapid_job("selection", "^TestC15Selection$", 4000, shards=2), rapid_job("known", "^TestC15KnownStale$", 1)]},
+    "thorough": {"jobs": [rapid_job("selection", "^TestC15Selection$", 20000, shards=16), rapid_job("known", "^TestC15KnownStale$", 1)]},
+}
+
 NOT_APPLICABLE = {}
